@@ -9,16 +9,22 @@ Definition P1 (f : fmt) : Prop := f_proto f = Http -> f_ocl f = None /\ (f_hdr_d
 Definition P2 (f : fmt) : Prop :=
   f_hdr_done f = true /\ (f_proto f = Http -> match f_ocl f with None => True | Some l => f_owritten f <= l end).
 
+Ltac solve_P H :=
+  first [exact H |
+    unfold P1, P2 in *; cbn [set_fmt f_proto f_ocl f_hdr_done f_owritten f_chunked];
+    repeat split; intros; try assumption; try reflexivity; try discriminate; try congruence; try lia].
+Ltac ex2 := eexists; eexists; split; [reflexivity|].
+
 Lemma fmt_L1 f g : P1 f -> exists f1 nd, format_output f g false = (f1, nd, false) /\ P1 f1.
 Proof.
   intros H. unfold format_output. destruct (f_proto f) eqn:Ep.
   - destruct (H Ep) as [Ho Hw]. unfold http_format, http_head. rewrite Ho.
     destruct (f_hdr_done f) eqn:Ed.
-    + destruct (f_chunked f); eexists; eexists; (split; [reflexivity|]); intros _; cbn; auto. split; [exact Ho|discriminate].
+    + destruct (f_chunked f); ex2; solve_P H.
     + cbn [isSome orb negb]. rewrite andb_true_r.
-      destruct (f_cka f && f_http11 f); eexists; eexists; (split; [reflexivity|]); intros _; cbn; split; auto; discriminate.
-  - unfold scgi_format. destruct (f_hdr_done f); eexists; eexists; (split; [reflexivity|]); intros E; cbn in E; congruence.
-  - unfold fcgi_format. eexists; eexists; (split; [reflexivity|]); intros E; cbn in E; congruence.
+      destruct (f_cka f && f_http11 f); ex2; solve_P H.
+  - unfold scgi_format. destruct (f_hdr_done f); ex2; solve_P H.
+  - unfold fcgi_format. ex2; solve_P H.
 Qed.
 
 Lemma fmt_L2 f g : P1 f -> exists f1 nd, format_output f g true = (f1, nd, false) /\ P2 f1.
@@ -26,44 +32,44 @@ Proof.
   intros H. unfold format_output. destruct (f_proto f) eqn:Ep.
   - destruct (H Ep) as [Ho Hw]. unfold http_format, http_head. rewrite Ho.
     destruct (f_hdr_done f) eqn:Ed.
-    + destruct (f_chunked f); eexists; eexists; (split; [reflexivity|]); split; cbn; auto; intros _; now rewrite ?Ho.
+    + destruct (f_chunked f); ex2; unfold P2; cbn [set_fmt f_proto f_ocl f_hdr_done f_owritten]; rewrite ?Ed, ?Ho; auto.
     + cbn [isSome orb negb]. rewrite andb_true_r, andb_false_r. rewrite (Hw eq_refl). cbn [N.add overrun].
-      rewrite N.ltb_irrefl.
-      eexists; eexists; (split; [reflexivity|]). split; cbn; auto. intros _. lia.
-  - unfold scgi_format. destruct (f_hdr_done f); eexists; eexists; (split; [reflexivity|]); split; cbn; auto; intros E; congruence.
-  - unfold fcgi_format. eexists; eexists; (split; [reflexivity|]); split; cbn; auto; intros E; congruence.
+      rewrite N.ltb_irrefl. ex2. unfold P2; cbn [set_fmt f_proto f_ocl f_hdr_done f_owritten]. split; [reflexivity|]. intros _. lia.
+  - unfold scgi_format. destruct (f_hdr_done f) eqn:Ed; ex2; unfold P2; cbn [set_fmt f_proto f_ocl f_hdr_done f_owritten];
+      (split; [auto|intros E; congruence]).
+  - unfold fcgi_format. ex2; unfold P2; cbn [set_fmt f_proto f_ocl f_hdr_done f_owritten]; (split; [auto|intros E; congruence]).
 Qed.
 
 Lemma fmt_L3 f : P2 f -> exists f1 nd, format_output f [] false = (f1, nd, false) /\ P2 f1.
 Proof.
   intros [Hd H]. unfold format_output. destruct (f_proto f) eqn:Ep.
-  - specialize (H Ep). unfold http_format. rewrite Hd.
+  - specialize (H eq_refl). unfold http_format. rewrite Hd.
     destruct (f_chunked f).
-    + eexists; eexists; (split; [reflexivity|]). split; [exact Hd|]. intros _. rewrite Ep in *. auto.
+    + ex2. split; [exact Hd|]. intros _. exact H.
     + cbn [gsize concat lenN length N.of_nat]. rewrite N.add_0_r.
       assert (E : overrun (f_ocl f) (f_owritten f) = false).
       { unfold overrun. destruct (f_ocl f); [apply N.ltb_ge; exact H|reflexivity]. }
-      rewrite E. eexists; eexists; (split; [reflexivity|]). split; cbn; auto.
-  - unfold scgi_format. rewrite Hd. eexists; eexists; (split; [reflexivity|]). split; [exact Hd|]. intros E; congruence.
-  - unfold fcgi_format. eexists; eexists; (split; [reflexivity|]). split; cbn; auto. intros E; congruence.
+      rewrite E. ex2. unfold P2; cbn [set_fmt f_proto f_ocl f_hdr_done f_owritten]. split; [reflexivity|]. intros _. exact H.
+  - unfold scgi_format. rewrite Hd. ex2. split; [exact Hd|]. intros E; congruence.
+  - unfold fcgi_format. ex2. unfold P2; cbn [set_fmt f_proto f_ocl f_hdr_done f_owritten]. split; [reflexivity|]. intros E; congruence.
 Qed.
 
 (* ---------------------------------------------------------------- connection steps *)
 Definition NE (Q Q' : fmt -> Prop) (c c' : conn) : Prop := k_err c = false -> Q (k_fmt c) -> k_err c' = false /\ Q' (k_fmt c').
 
-Lemma NE_refl Q c : NE Q Q c c.
+Lemma NE_refl (Q : fmt -> Prop) c : NE Q Q c c.
 Proof. intros H1 H2. auto. Qed.
-Lemma NE_trans Q1 Q2 Q3 a b c : NE Q1 Q2 a b -> NE Q2 Q3 b c -> NE Q1 Q3 a c.
+Lemma NE_trans (Q1 Q2 Q3 : fmt -> Prop) a b c : NE Q1 Q2 a b -> NE Q2 Q3 b c -> NE Q1 Q3 a c.
 Proof. intros H1 H2 He Hq. destruct (H1 He Hq) as [A B]. now apply H2. Qed.
 
-Lemma NE_nb Q Q' c g e : (forall f, Q f -> exists f1 nd, format_output f g e = (f1, nd, false) /\ Q' f1) ->
+Lemma NE_nb (Q Q' : fmt -> Prop) c g e : (forall f, Q f -> exists f1 nd, format_output f g e = (f1, nd, false) /\ Q' f1) ->
   NE Q Q' c (fst (nonblocking_write (add_trace c g e) g e)).
 Proof.
   intros HL He Hq. destruct (HL _ Hq) as (f1 & nd & Hf & Hq1).
   pose proof (nb_write_sent (add_trace c g e) g e f1 nd He Hf) as H. cbv zeta in H.
   destruct H as (_ & A & B & _). rewrite A, B. auto.
 Qed.
-Lemma NE_async_write Q Q' c g e : (forall f, Q f -> exists f1 nd, format_output f g e = (f1, nd, false) /\ Q' f1) ->
+Lemma NE_async_write (Q Q' : fmt -> Prop) c g e : (forall f, Q f -> exists f1 nd, format_output f g e = (f1, nd, false) /\ Q' f1) ->
   NE Q Q' c (async_write c g e).
 Proof.
   intros HL He Hq. destruct (HL _ Hq) as (f1 & nd & Hf & Hq1).
@@ -245,7 +251,8 @@ Definition no_declared_length (c : conn) (h : headers) : Prop :=
 
 Lemma P1_out c h v : no_declared_length c h -> P1 (set_response_headers (k_fmt c) h v).
 Proof.
-  intros Hn Hp. unfold set_response_headers in *. destruct (f_proto (k_fmt c)) eqn:E; cbn in Hp; try congruence.
+  intros Hn Hp. unfold no_declared_length in Hn. unfold set_response_headers in *.
+  destruct (f_proto (k_fmt c)) eqn:E; cbn in Hp; try congruence.
   rewrite (Hn eq_refl). cbn. auto.
 Qed.
 
@@ -290,4 +297,32 @@ Proof.
   apply whole_noerr; auto.
   - apply pre_new.
   - unfold sent, wire_bytes. now rewrite Hw, Hp.
+Qed.
+
+(* unconditional end-to-end statements for asynchronous responses: every schedule, no error hypothesis *)
+Lemma async_scgi_unconditional base defbuf version c ops :
+  fresh c -> f_proto (k_fmt c) = Scgi -> script_safe true base defbuf version c ops ->
+  wire_bytes (fst (run_request true base defbuf version c ops)) = format_cgi_headers (hdrs_at_out base ops) ++ script_body ops.
+Proof.
+  intros Hf Hp Hs. apply scgi_exact; auto. apply async_noerr; auto. intros E. congruence.
+Qed.
+Lemma async_fcgi_unconditional base defbuf version c ops rest :
+  fresh c -> f_proto (k_fmt c) = Fcgi -> script_safe true base defbuf version c ops ->
+  exists fuel0, forall fuel, (fuel0 <= fuel)%nat ->
+  unrecord fuel (f_reqid (k_fmt c)) (wire_bytes (fst (run_request true base defbuf version c ops)) ++ rest) =
+  Some (format_cgi_headers (hdrs_at_out base ops) ++ script_body ops, rest).
+Proof.
+  intros Hf Hp Hs. apply fcgi_exact; auto. apply async_noerr; auto. intros E. congruence.
+Qed.
+Lemma async_http_unconditional base defbuf version c ops :
+  fresh c -> f_proto (k_fmt c) = Http -> hmap_get (h_map (hdrs_at_out base ops)) CONTENT_LENGTH = [] ->
+  script_safe true base defbuf version c ops ->
+  http_wire (format_http_headers (hdrs_at_out base ops) version) (f_server (k_fmt c)) (script_body ops)
+            (wire_bytes (fst (run_request true base defbuf version c ops))) /\
+  k_pending (fst (run_request true base defbuf version c ops)) = [].
+Proof.
+  intros Hf Hp Hcl Hs.
+  assert (Hok : k_err (fst (run_request true base defbuf version c ops)) = false) by (apply async_noerr; auto; intros _; exact Hcl).
+  split; [apply http_exact; auto|].
+  destruct (response_exact_lemma true base defbuf version c ops Hf Hs Hok) as (_ & P & _). exact P.
 Qed.
